@@ -227,6 +227,14 @@ func c16Shrink(c caseID, class string) caseID {
 	return c
 }
 
+// tagCase appends the reproducible case id to a failing verdict (replay files keep the verdict text)
+func tagCase(verdict string, c caseID) string {
+	if strings.HasPrefix(verdict, "FAIL") {
+		return verdict + " [case=" + c.String() + "]"
+	}
+	return verdict
+}
+
 // verdictClass: "FAIL <class>: detail" -> "<class>"
 func verdictClass(v string) string {
 	if !strings.HasPrefix(v, "FAIL") {
@@ -254,7 +262,7 @@ func init() {
 		for i := 0; i < n; i++ {
 			c := caseID{seed: seed, idx: i, mode: mode, tier: tier}
 			req, impl, verdict := c16Row(c, c16Case(c))
-			fmt.Fprintf(out, "%s\t%s\t%s\t%s\n", req, impl, verdict, c.String())
+			fmt.Fprintf(out, "%s\t%s\t%s\t%s\n", req, impl, tagCase(verdict, c), c.String())
 		}
 		return nil
 	})
@@ -268,7 +276,7 @@ func init() {
 			c = c16Shrink(c, verdictClass(verdict))
 			req, impl, verdict = c16Row(c, c16Case(c))
 		}
-		fmt.Fprintf(out, "%s\t%s\t%s\t%s\n", req, impl, verdict, c.String())
+		fmt.Fprintf(out, "%s\t%s\t%s\t%s\n", req, impl, tagCase(verdict, c), c.String())
 		return nil
 	})
 	register("c16-child", func(args map[string]string, out *bufio.Writer) error {
